@@ -36,7 +36,7 @@ def specEvent (c : Cfg) (n n' : Nat) (prev new : SState) : Option Ev :=
 /-- Clauses of the property; the driver reports the first one that fails by name. -/
 inductive Clause
   | okHardAttempt1 | hardAttempt1 | attemptRange | hardAfterMax
-  | streakHard | streakSoft | event | stateRecorded
+  | streakHard | streakSoft | event | stateRecorded | droppedAlthoughNotOlder
   deriving Repr, DecidableEq
 
 def Clause.name : Clause → String
@@ -48,6 +48,14 @@ def Clause.name : Clause → String
   | .streakSoft => "streak_below_max_is_soft_attempt_eq_streak"
   | .event => "state_change_event"
   | .stateRecorded => "state_is_latest_result"
+  | .droppedAlthoughNotOlder => "result_not_older_than_the_latest_is_processed"
+
+/-- May a result be dropped?  Only when it is strictly older than the latest accepted one
+    (with non-decreasing timestamps every result is processed). -/
+def mayDrop (lastExec : Option Int) (execStart : Int) : Bool :=
+  match lastExec with
+  | none => false
+  | some cur => decide (execStart < cur)
 
 /-- Check one accepted result against the property.  `sp` is the bookkeeping *before* the result. -/
 def specStep (c : Cfg) (sp : SpecSt) (r : SState) (o : Obs) : Option Clause :=
